@@ -49,6 +49,10 @@ fn main() {
             let n = a.n.unwrap_or(if thorough { 400_000 } else { 30_000 });
             vh::props::c16::run(&mut rep, n, replay_seed);
         }
+        "C09" => {
+            let n = a.n.unwrap_or(if thorough { 300_000 } else { 20_000 });
+            vh::props::c09::run(&mut rep, n, replay_seed);
+        }
         other => {
             eprintln!("vh: unknown property {other}");
             std::process::exit(2);
